@@ -5,6 +5,7 @@ import (
 	"runtime"
 	"sort"
 	"sync"
+	"time"
 
 	txfile "github.com/elastic/go-txfile"
 	"github.com/elastic/go-txfile/txerr"
@@ -487,7 +488,7 @@ func (e *Env) Reopen(opts txfile.Options) error {
 	e.writerID = f.VerifWriterID()
 	e.unsink = core.AddHookSink(e.sink)
 	e.Emit(core.Event{"ev": "Reopen", "st": e.St()})
-	return nil
+	return e.probeIdle()
 }
 
 // Begin starts the write transaction.
@@ -823,7 +824,49 @@ func (e *Env) Resize(newMax uint64, prealloc bool) error {
 		e.ExtentLimit = 0
 	}
 	e.Emit(core.Event{"ev": "OpenResize", "newmax": newMax / uint64(e.PS), "prealloc": prealloc, "st": e.St()})
-	return nil
+	return e.probeIdle()
+}
+
+// ErrBlocked: a Begin on an idle file did not return.
+var ErrBlocked = fmt.Errorf("transaction blocked on an idle file")
+
+// probeIdle is called when no transaction of the environment is open. If the lock does not
+// look idle, a read and a write transaction are really started under a watchdog; a "Blocked"
+// event is recorded when one of them does not get through (the history ends there: the
+// goroutine that hangs is left behind).
+func (e *Env) probeIdle() error {
+	sh, pe := e.F.VerifLockState()
+	if sh == 0 && !pe {
+		return nil
+	}
+	f := e.F
+	try := func(op string, fn func() error) error {
+		done := make(chan error, 1)
+		go func() { done <- fn() }()
+		select {
+		case <-done:
+			return nil
+		case <-time.After(3 * time.Second):
+			e.Emit(core.Event{"ev": "Blocked", "op": op, "lk": map[string]interface{}{"sh": sh, "pe": pe, "res": false}})
+			return ErrBlocked
+		}
+	}
+	if err := try("BeginReadonly", func() error {
+		tx, err := f.BeginReadonly()
+		if err == nil {
+			tx.Close()
+		}
+		return err
+	}); err != nil {
+		return err
+	}
+	return try("Begin", func() error {
+		tx, err := f.Begin()
+		if err == nil {
+			tx.Close()
+		}
+		return err
+	})
 }
 
 func goidOf() uint64 {
